@@ -64,6 +64,12 @@ unsigned int irc_ntop(char *output, unsigned int out_size, const irc_inaddr *add
             max_start = ii - curr_zeros;
             max_zeros = curr_zeros;
         }
+        /* A run at the start keeps its first group as a literal "0"
+         * (so the text never begins with ':'), so a single leading
+         * zero group leaves nothing for "::" to stand for.
+         */
+        if ((max_start == 0) && (max_zeros == 1))
+            max_zeros = 0;
 
         /* Print out address. */
 #define APPEND(CH) do { if (pos < out_size) output[pos] = (CH); pos++; } while (0)
